@@ -554,6 +554,12 @@ def main():
             build_broken.append("harness (%s) does not build against /repo: %s" % (prof, out.strip()[-600:]))
         else:
             binaries[prof] = b
+    if spec.get("sendsync"):
+        # C18: the Send + Sync obligation is a compile-time fact about the library's types
+        rc_ss, out_ss, _ = sh(["cargo", "build", "--offline", "--features", "sendsync_check", "--bin", "sendsync", "--target-dir", os.path.join(HARNESS, "target")], cwd=HARNESS, timeout=3000)
+        if rc_ss != 0:
+            m = re.search(r"error\[E\d+\]: ([^\n]*)(?:\n[^\n]*){0,12}", out_ss)
+            build_broken.append("Send + Sync obligation (harness/src/bin/sendsync.rs) does not compile: " + (m.group(0)[:900] if m else out_ss.strip()[-600:]))
     model_bin, mout = build_model()
     if model_bin is None:
         coq["broken"].append("extracted model does not build: " + mout.strip()[-300:])
